@@ -244,4 +244,8 @@ pub fn generate(s: &mut Session, tier: &str, rng: &mut Rng) {
             }
         }
     }
+    // datagrams: type rule, reflection to the sender (both directions), stale copies
+    if let Some(mut cr) = crate::craft::Crafter::new() {
+        crate::c10::udp_rules(s, &mut cr, rng);
+    }
 }
